@@ -284,7 +284,8 @@ package bfe_tls
 //@   ensures[next_multiple] result0 >= a && result0 < a + b && result0 % b == 0
 
 //@ func (*halfConn).decrypt
-//@   props C42,C43
+//@   props C42,C43,C43
+//@   assert[only_ssl30_records_skip_the_padding_byte_check] at "removePaddingSSL30(payload)" :: hc.version == VersionSSL30
 //@   nopanic
 //@   requires hc != nil && b != nil
 //@   requires[a_record_is_a_header_plus_at_most_the_maximum_ciphertext] recordHeaderLen <= len(b.data) && len(b.data) <= recordHeaderLen + maxCiphertext
